@@ -15,11 +15,13 @@
         "range"|"iterator"; "limits_form": "tuple"|"list"|"iterator"   (the arguments as Python objects: Model §6)
         {"op":"pack","cls":n,"data":n} / {"op":"unpack","v":n}       (native-layer packing only)
         {"op":"eligible","pid":n,["status_mask":[n]|null]}           (the helper `_get_eligible_cpus()` only)
-   out: {"model":{"out":…,"procs":[…],"log":[…]}, "spec": null | {"out":…,"procs":[…],"log":[…]}}
+   out: {"model":{"out":…,"procs":[…],"log":[…]}, "spec": null | {"out":…,"procs":[…],"log":[…]},
+         "honest": null | [{"out":…,"procs":[…],"log":[…]}]}   (a get form the kernel refuses to this caller: the admissible
+                                                                 results — Spec/C18Refused.lean)
 -/
 import PsutilModel.Base.Proto
 import PsutilModel.Model.C18Gen
-import PsutilModel.Spec.C18
+import PsutilModel.Spec.C18Refused
 open Lean Psutil Psutil.Proto Psutil.C18
 
 structure DSt where
@@ -158,7 +160,7 @@ def handle (d : DSt) (j : Json) : R (DSt × Json) := do
     -- import time / object creation differ from it after a fork (default: no fork)
     let og : Origin := { importPid := (← optF asNat j "import_pid").getD k0.self,
                          createPid := (← optF asNat j "create_pid").getD k0.self }
-    let (o, k') := stepPyN cpuNumBits cfg routing og k0 pid x req
+    let (o, k') := stepPyA rlimitAlt cpuNumBits cfg routing og k0 pid x req
     let spec : Json :=
       if pid = 0 then Json.null
       else match k0.procs pid with
@@ -167,7 +169,15 @@ def handle (d : DSt) (j : Json) : R (DSt × Json) := do
           match Spec.expectPy k0 pid st req with
           | .unconstrained => Json.null
           | .promised so sk => jResult d.pids so sk
-    return (⟨k', d.pids⟩, jObj [("model", jResult d.pids o k'), ("spec", spec)])
+    let honest : Json :=
+      if pid = 0 then Json.null
+      else match k0.procs pid with
+        | none => Json.null
+        | some st =>
+          match Spec.refusedGetAnswersPy k0 pid st req with
+          | none => Json.null
+          | some outs => Json.arr (outs.map fun so => jResult d.pids so k0).toArray
+    return (⟨k', d.pids⟩, jObj [("model", jResult d.pids o k'), ("spec", spec), ("honest", honest)])
   .error s!"unknown op {op}"
 
 def main : IO Unit := Proto.run (⟨emptyKernel, []⟩ : DSt) (total handle)
